@@ -187,12 +187,14 @@ class System(SharedRegistryObject):
 
                 # Here we invert the equation, in other words
                 # we write old units in terms new unit and expansion
+                # new = old**p * prod(other**e)  =>  old = new**(1/p) * prod(other**(-e/p))
+                old_exponent = new_unit_expanded[old_unit]
                 new_unit_dict = {
-                    new_unit: -1 / value
-                    for new_unit, value in new_unit_expanded.items()
-                    if new_unit != old_unit
+                    other_unit: -value / old_exponent
+                    for other_unit, value in new_unit_expanded.items()
+                    if other_unit != old_unit
                 }
-                new_unit_dict[new_unit] = 1 / new_unit_expanded[old_unit]
+                new_unit_dict[new_unit] = 1 / old_exponent
 
                 base_unit_names[old_unit] = new_unit_dict
 
